@@ -249,7 +249,9 @@ fn run1<T: Flt>(src: &mut Src, obs: &mut Obs) -> Result<(), Fail> {
         }
         3 => {
             // shift by an integer multiple of the grid step (all sums exact)
-            let lim = if T::MANT == 53 { 1 << 20 } else { 1 << 8 };
+            // any magnitude up to 2^44 grid steps (f32: 2^12): offsets of 10^12 interval widths and more; whether a shift is
+            // exactly representable is checked below
+            let lim: i64 = 1i64 << src.int_in(1, if T::MANT == 53 { 44 } else { 12 });
             let ulp_grid = c.x.iter().chain(qs.iter()).filter(|v| **v != 0.0).map(|v| {
                 let (m, e) = frexp_exp(*v);
                 let _ = m;
